@@ -84,6 +84,17 @@ def setup(ctx):
                 return
             try:
                 got = val in r
+                # the view is asked in every form its signature documents: text, a parsed Version, contains()
+                if atom.op not in ("in", "not in") and hasattr(r, "contains"):
+                    from packaging.version import Version as _V
+
+                    forms = {"text": bool(got), "Version": bool(_V(val) in r), "contains(Version)": bool(r.contains(_V(val))),
+                             "contains(text)": bool(r.contains(val))}
+                    if len(set(forms.values())) > 1:
+                        violation(PROP, "MarkerExpression._get_specifier", "the specifier view answers differently for the same "
+                                  "value given as text / Version / through contains()",
+                                  {"atom": str(atom), "specifier": str(r), "value": val, "answers": forms, "group": "value-form"})
+                        return
             except Exception as e:  # noqa: BLE001
                 violation(PROP, "MarkerExpression._get_specifier", f"membership in the specifier view raised {type(e).__name__}",
                           {"atom": str(atom), "specifier": repr(r), "value": val})
@@ -118,6 +129,14 @@ def setup(ctx):
             env = {"python_version": f"{X}.{Y}", "python_full_version": f"{X}.{Y}.{Z}"}
             try:
                 exp = val in spec
+                if iv.readable(spec) and hasattr(spec, "contains"):
+                    from packaging.version import Version as _V
+
+                    if bool(_V(val) in spec) != bool(exp) or bool(spec.contains(_V(val))) != bool(exp):
+                        violation(PROP, "MarkerExpression.from_specifier", "the input specifier answers differently for the "
+                                  "same value given as text and as Version",
+                                  {"specifier": str(spec), "value": val, "as_text": bool(exp), "group": "value-form"})
+                        return
             except Exception:  # noqa: BLE001
                 return
             try:
@@ -211,7 +230,7 @@ def _atoms():
 
 def _specs():
     out = []
-    for v in ("3", "3.8", "3.8.0", "3.8.1", "3.10", "2.7", "3.0"):
+    for v in ("3", "3.8", "3.8.0", "3.8.1", "3.10", "2.7", "3.0", "3.9", "3.9.1"):
         for op in ("==", "!=", "<", "<=", ">", ">="):
             out.append(f"{op}{v}")
         if "." in v:
@@ -301,8 +320,15 @@ def run(ctx):
         pairs = list(itertools.product(sp, repeat=2))
         frac = 0.08 if ctx.tier == "quick" else 1.0
         for idx, (a, b) in enumerate(pairs):
-            if idx % ctx.nshards != ctx.shard or ctx.rnd.random() > frac:
+            if idx % ctx.nshards != ctx.shard:
                 continue
+            # "gap" pairs (an upper-bounded and a lower-bounded range: their union is the two-range shape the
+            # `!=X.*` / `!=V` shortcuts look at) are always taken, the rest is sampled in the quick tier
+            gap = str(a).startswith("<") and str(b).startswith(">") and "," not in str(a) + str(b)
+            if not gap and ctx.rnd.random() > frac:
+                continue
+            if gap:
+                ctx.shape("spec-pair:gap")
             for r in (a & b, a | b):
                 for name in ("python_version", "python_full_version"):
                     ctx.cases += 1
